@@ -1297,6 +1297,39 @@ pub fn c06(eng: &mut Engine, rng: &mut Rng, thorough: bool, out: &mut Out) -> Ca
                 }
             }
         }
+        // value restrictions on NUMERIC revealed values (a JSON number in a W3C subject), right and wrong, single and inside a group
+        {
+            let mut done = 0;
+            for rp in plan.refs.iter().filter(|x| x.revealed) {
+                let held = plan.creds[rp.cred.unwrap()].held;
+                let names: Vec<String> = match &rp.kind { Kind::Single(n) => vec![n.clone()], Kind::Group(ns) => ns.clone(), _ => vec![] };
+                for n in names {
+                    let Some((cn, raw)) = eng.cast.creds[held].values.iter().find(|(k, v)| norm(k) == norm(&n) && v.parse::<i32>().is_ok()).cloned() else { continue };
+                    for (right, val) in [(true, raw.clone()), (false, format!("{}", raw.parse::<i32>().unwrap() + 1))] {
+                        // legacy keys the value map by the requested spelling, W3C by the credential's (F19): use each format's own
+                        for w3c in [false, true] {
+                            let key = if w3c { cn.clone() } else { n.clone() };
+                            let mut r = r0.clone();
+                            r["requested_attributes"][rp.referent.as_str()]["restrictions"] = json!({ format!("attr::{key}::value"): val });
+                            let Some(req) = req_from(&r) else { continue };
+                            let cls = format!("c06:value-restriction-numeric:{}:{}", if matches!(rp.kind, Kind::Group(_)) { "in-group" } else { "single" }, if right { "right" } else { "wrong" });
+                            if w3c {
+                                if let Some(b) = &bw {
+                                    let exp = if right { Some(true) } else if single { Some(false) } else { None };
+                                    emit_w3c(eng, out, &mut cases, "c06.w3c", &cls, "", exp, &b.pres, &b.ghosts, &b.agg, true, &req, &o, "safety");
+                                }
+                            } else if let Some(b) = &bl {
+                                emit_legacy(eng, out, &mut cases, "c06.legacy", &cls, "", Some(right), &b.pres, &b.ghosts, &b.agg, &req, &o, "safety");
+                            }
+                        }
+                    }
+                    done += 1;
+                }
+            }
+            if done == 0 {
+                out.count("c06:value-restriction-numeric:no-numeric-revealed-in-this-plan");
+            }
+        }
         // a restricted referent cannot be met by self-attestation
         if let Some(b) = &bl {
             let mut r = r0.clone();
